@@ -11,6 +11,11 @@ CLAIMS = {
   note="Trusted: rustc's MIR and callee resolution, the driver, the std contract Layout::size(from_size_align_unchecked(s,a)) == s, total order of RMWs on one atomic. Not decided: memory-ordering subtleties, OS behaviour when the limit is exceeded.",
   design_ref="DESIGN.md section 4, C19"),
 }
+CLAIMS["C15"] = dict(
+  technique="effect/ownership analysis: signatures + deep interior-mutability walk + who-may-write over MIR + single-edge cut-set (necessary guards) of every previous_result store",
+  text="Decides from the MIR/HIR/type facts of /repo's current tree that (a) everything reachable from eval_query takes Context/Registry by shared reference and no interior mutability, user unsafe, static mut or non-Freeze static exists in rink_core (so a query cannot write database, clock or settings), (b) every write through a field of Context or Registry in all five crates is made by an allowed writer, none reachable from a per-query entry, (c) each of the three stores to previous_result is reachable only through the edges success / save_previous_result==true / QueryReply::Number / raw_value Some and stores that reply's raw value, (d) QueryReply::Number is built only in the plain-expression arm, (e) Context::lookup serves exactly ans/ANS/_ from previous_result, (f) load-time temporaries are cleared on every path. Together these are the whole structural content of the property; what is left (determinism of evaluation) is C08's clause.",
+  note="Trusted: rustc's borrow checker (shared reference + no interior mutability => no write), the driver, the allowed-writer table in rules/c15.py. A refactor that moves the ans update into a new function needs a table line.",
+  design_ref="DESIGN.md section 4, C15")
 NA = {
  "C05": "digit strings, recurring-block offsets and the 1-ulp truncation bound are number-theoretic facts about runtime values of p/q and the base; no structural clause is a genuine necessary condition (DESIGN.md section 4, C05)",
 }
